@@ -21,6 +21,18 @@ def texts(tier, rng, n):
             i = rng.randrange(len(lines))
             lines[i] = rng.choice([b"\xef\xbb\xbf", b"\xe2\x80\x8b", b"\xef\xbb\xbf\xef\xbb\xbf"]) + lines[i]
             out.append(b"\n".join(lines))
+    # many records, many of them malformed (limits, budgets and per-worker state show only beyond a handful of errors/blocks)
+    for _ in range(max(6, n // 25)):
+        recs = []
+        for i in range(rng.choice([12, 16, 25, 40])):
+            k = rng.random()
+            day = "2020-%02d-%02d" % (rng.randint(1, 12), rng.randint(1, 28))
+            if k < 0.45: recs.append(day.replace("-", "-1", 1)[:3] + day[3:].replace("-", "-13-", 1)[:8] + "\n    1h\n")       # month 13x: invalid date
+            elif k < 0.6: recs.append(day + "\n    8:00 - 7:00\n")
+            elif k < 0.7: recs.append(day + " oops\n")
+            elif k < 0.8: recs.append(day + "\n   1h\n      x\n     2h\n")
+            else: recs.append(day + "\n    %dm text\n" % rng.randint(1, 300))
+        out.append(rng.choice(["\n", "\n\n", "\r\n"]).join(recs).encode())
     out += [b"", b"\n", b"\n\n\n", b"a", b"2020-01-01", b"2020-01-01\n\n2020-01-02\r\n\r\n\r\n2020-01-03\n    1h \xe8\xaa\xad\n\n", b"2020-01-01\nfoo\xc3bar baz qux\n\n2020-01-02\n    1h\n",
             "2020-01-01\n    1h 読む読む読む読む\n  \n \t\n2020-01-02\n".encode(), b"\xff\xfe\n\n\x80\x80\x80\n"]
     return out
